@@ -240,6 +240,39 @@ def run(prog: Program, ctx: Ctx) -> None:  # noqa: PLR0912,PLR0915
                 path_writes.append((prog.fn_containing(n), mod, n, kind))
             elif tgt == "sys.modules":
                 mod_writes.append((prog.fn_containing(n), mod, n))
+    # aliases: a local name that may hold the sys.path object itself (`x = sys.path`, `x = given or sys.path`, `x = a if c else sys.path`)
+    def may_be_sys_path(mod, e: ast.AST) -> bool:
+        if isinstance(e, (ast.Attribute, ast.Name)):
+            return bool(dotted(e)) and prog.resolve(mod, dotted(e) or "") == "sys.path"
+        if isinstance(e, ast.IfExp):
+            return may_be_sys_path(mod, e.body) or may_be_sys_path(mod, e.orelse)
+        if isinstance(e, ast.BoolOp):
+            return any(may_be_sys_path(mod, v) for v in e.values)
+        if isinstance(e, ast.NamedExpr):
+            return may_be_sys_path(mod, e.value)
+        return False
+
+    n_alias = 0
+    for fn in prog.functions.values():
+        if fn.module.name in EXCLUDED_MODULES:
+            continue
+        aliases = {t.id for st in walk_no_nested(fn.node) if isinstance(st, ast.Assign) and may_be_sys_path(fn.module, st.value) for t in st.targets if isinstance(t, ast.Name)}
+        aliases |= {st.target.id for st in walk_no_nested(fn.node) if isinstance(st, ast.AnnAssign) and st.value is not None and isinstance(st.target, ast.Name) and may_be_sys_path(fn.module, st.value)}
+        for a in aliases:
+            n_alias += 1
+            for n in walk_no_nested(fn.node):
+                hit = None
+                if isinstance(n, ast.Call) and isinstance(n.func, ast.Attribute) and n.func.attr in MUT and isinstance(n.func.value, ast.Name) and n.func.value.id == a:
+                    hit = f"call .{n.func.attr}"
+                elif isinstance(n, ast.Subscript) and isinstance(n.ctx, (ast.Store, ast.Del)) and isinstance(n.value, ast.Name) and n.value.id == a:
+                    hit = "item store"
+                elif isinstance(n, ast.AugAssign) and isinstance(n.target, ast.Name) and n.target.id == a:
+                    hit = "augmented assignment"
+                if hit:
+                    ctx.ob("R3", key(fn, f"alias-mutation:{norm(stmt_of(n))}"), False,
+                           f"`{a}` may be the sys.path object itself (bound from an expression that can evaluate to sys.path): {hit} changes the interpreter's "
+                           "search path in place, and the save/restore context manager restores that same, modified list", where(fn, n))
+    ctx.analysed["sys_path_aliases"] = n_alias
     ctx.expect_min("R3", len(path_writes), 2)
     for fn, mod, n, kind in path_writes:
         loc = f"{mod.relpath}:{n.lineno}"
